@@ -79,7 +79,7 @@ pub fn judge(_part: &str, case: &Case, tally: &mut Tally) -> Verdict {
     Verdict::Pass
 }
 
-fn gen_case(src: &mut Src, _i: usize) -> Case {
+pub fn gen_case(src: &mut Src, _i: usize) -> Case {
     let (cols, rows) = if src.chance(1, 15) { (80, 24) } else { gen::small_size(src) };
     let mut g = G::new(cols, rows).with_raw(2);
     g.w[gen::CAT_TABSET] = 4;
